@@ -21,10 +21,15 @@ CFG = {
         "Leptos.Async.C10_suspense_pending_while_covered",
         "Leptos.Async.C10_suspense_released_when_idle",
         "Leptos.Async.C10_suspense_released_when_settled",
+        "Leptos.Async.C10_suspense_forgets_dropped_readers",
+        "Leptos.Async.C10_suspense_reload_after_drop_unnoticed",
+        "Leptos.Async.C10_suspense_idle_without_readers",
         "Leptos.Async.C10_dirty_stolen_witness",
         "Leptos.Async.C10_settles_on_latest_old1_false",
         "Leptos.Async.C10_stale_initial_witness",
         "Leptos.Async.C10_settles_on_latest_old2_false",
+        "Leptos.Async.C10_stale_registration_witness",
+        "Leptos.Async.C10_suspense_forgets_dropped_readers_old3_false",
         "Leptos.Async.runV_repaired",
         "Leptos.Async.run_src",
         "Leptos.Async.run_lastManual",
@@ -42,18 +47,24 @@ CFG = {
             "attached at generated points; fetchers with CONDITIONAL / INDEXED reads (`R0/-/C1`: flag in the closure body, extra input only when the flag is "
             "non-zero and only after the await; `-/R0.X/-`: indexed input in the async block before its first await; 12 such programs over 2-3 "
             "sources) so that an input is first read in a later run: every sequence of length 4 over {flag writes, writes to the extra inputs, "
-            "complete, idle} before and after a first load, each followed by a write to the newly read input after settling; a stand-in <Suspense/> boundary (child owner providing a SuspenseContext) reading the value synchronously "
-            "(`bread`) at every phase: no value + loading, value + idle, value + reloading. Cases: EVERY op sequence of length <= 3 over {set, refetch, "
+            "complete, idle} before and after a first load, each followed by a write to the newly read input after settling; a stand-in <Suspense/> boundary (child owner providing a SuspenseContext) under which READERS come and go: "
+            "`bread` = a new child owner reads the value synchronously at every phase (no value + loading, value + idle, value + reloading), `attach s` = a "
+            "new child owner awaits the value (ScopedFuture in that owner, like a Suspend), `bdrop` = every reader is disposed (Owner::cleanup, the awaiting "
+            "futures aborted). Cases: EVERY op sequence of length <= 3 over {set, refetch, "
             "mset, complete, attach, poll 0/1/2} and of length 4 over {set, complete, mset, poll 0/1} for every effect kind and both source modes; every "
             "interleaving of two source writes with completions and polls after 5 preambles; for the boundary every sequence of length <= 4 over {set, "
             "complete, bread, poll 0/1, idle} on 6 handle flavours plus length 3 over {set, complete, bread, poll 0/1, mset, refetch} after a first "
-            "load; for resources every sequence of length <= 3 over {set, refetch, complete, poll 0/1, idle, mset, attach}, length 4-5 over {set, "
+            "load; readers that go away: every sequence of length <= 3 (6 flavours) / 4 (2 flavours) over {set, complete, bread, attach s, bdrop, poll 0/1, idle}, "
+            "length 3 over {set, complete, bread, attach s, bdrop, poll 0/1} after 3 preambles (a reader has read / awaited the loaded value; both during "
+            "the first load), each followed by one more reload after settling; local resources length <= 3, once-resources length <= 4 with bdrop; for resources every sequence of length <= 3 over {set, refetch, complete, poll 0/1, idle, mset, attach}, length 4-5 over {set, "
             "refetch, complete, poll 0, idle} (also after a first load); local resources length <= 3 over {set, refetch, complete, attach, bread, poll "
             "0/1/2}, 4-5 over {set, complete, poll 0/1/2}; once-resources length <= 3 over {complete, attach, attach r, bread, poll 0/1/2, idle}; then "
             "seeded random histories over all flavours (<= 30 ops, <= 4 awaiters); each followed by a settle suffix. Observable after every op: ready "
             "list (task kinds d/e/a/r/t), value and loading flag as the public API shows them, fetches started, inputs captured by the last fetch, what "
             "every awaiter resumed with, every run of the subscriber effect, the boundary's task-list length. Oracle (harness bookkeeping only): value "
-            "never fabricated; whenever idle: the boundary's task list is non-empty while a load it has read from is in flight and empty when none is; at "
+            "never fabricated; whenever idle: the boundary's task list is non-empty while a load it has read from is in flight and empty when none is; ALWAYS: while no reader exists under the boundary (none "
+            "created since the last `bdrop`) its task list holds nothing but the handles of synchronous reads still waiting for the load they were made "
+            "in (reader tasks not yet polled with loading off): class suspense-stale; at "
             "settled points loading off, value = last manual write or fetch(latest sources), all awaiters resumed, effect saw the current value. "
             "trivial = no tag other than the flavour/settled/fresh-completion ones",
     "trusted": [
@@ -64,15 +75,17 @@ CFG = {
     "modelled": ["spawn_derived! task loop (arc_async_derived.rs)", "ArcAsyncDerived::notify_subs / set_inner_value", "ArcAsyncDerivedInner as ReactiveNode "
                  "(mark_dirty, update_if_necessary; Notifying)", "AsyncDerivedFuture / AsyncDerivedReadyFuture / AsyncDerivedRefFuture poll", "Write/Set impl "
                  "(manual write = store + notify)", "channel.rs", "Effect::new task + EffectInner::update_if_necessary", "MemoInner mark_dirty/update_if_necessary "
-                 "(one memo over signals)", "ScopedFuture (observer re-installed on every poll: reads before and after an await are tracked)", "ArcAsyncDerived::try_read_untracked under a SuspenseContext + the loop's suspense_ids (task ids held per fetch)",
+                 "(one memo over signals)", "ScopedFuture (observer re-installed on every poll: reads before and after an await are tracked)", "ArcAsyncDerived::try_read_untracked / AsyncDerivedFuture::poll under a SuspenseContext + the loop's suspense_ids (task ids held per fetch) as "
+                 "SuspenseInterest registrations ending with the reader's Owner (on_cleanup)",
                  "leptos_server ArcResource::new_with_options (source memo (refetch, source()), untracked fetcher, refetch)", "ArcOnceResource (one future; "
                  "Suspense handle only while there is no value)", "ArcLocalResource/LocalResource (Executor::tick() before every fetch; refetch = tracked signal)"],
     "assumptions": [
         "single-threaded executor (cross-thread races are C19)",
         "sources of the derived are plain signals, or one memo of all of them, read synchronously when the fetcher is called; the subscriber effect may read a second memo",
         "manual writes write Some(v) (a manual `None` with loading off makes `.await` panic on unwrap: outside the property)",
-        "the Suspense boundary is a stand-in (owner + SuspenseContext + task list, as tachys' Suspense sets up); reads through it are synchronous "
-        "(`get_untracked` under the boundary's owner); `.await` under a boundary (Suspend) and AsyncTransition (ready_tx) are not driven",
+        "the Suspense boundary is a stand-in (owner + SuspenseContext + task list, as tachys' Suspense sets up); readers are child owners of it that read synchronously "
+        "(`get_untracked`) or await (`ScopedFuture`, as a Suspend does; the Suspend's own task id, held by tachys, is not part of the stand-in); all readers "
+        "are disposed together (`bdrop`); AsyncTransition (ready_tx) is not driven",
         "leptos_server is built natively without `ssr`/`hydration`: no shared context, so resources start unresolved and nothing is serialised; "
         "LocalResource takes its client path (tick + fetch); the codecs other than the default JSON one are not exercised",
         "a OnceResource has no sources: its future is started on the inputs given in the cfg line; `set`/`refetch`/`mset` do not apply to it",
@@ -83,8 +96,12 @@ CFG = {
                 "(source writes, refetches, manual writes, completions, awaiter attachments, polls of any woken task in any order): at every settled "
                 "point loading is off, the value is the fetcher's result for the LATEST source values (or the last manual write if that came later) and "
                 "every awaiter has resumed with a value; reads change only by a manual write or by consuming a completed fetch; an idle executor means "
-                "the subscriber saw the current value. The statement is about the code after two repairs (F-C10-1 a dependent's check consumed the "
-                "derived's Dirty state; F-C10-2 stale initial future reused when a memo source changed before the first poll); the pre-repair code is "
+                "the subscriber saw the current value. A Suspense boundary that has read from the load in flight is waiting, is released when "
+                "nothing is in flight, and takes no part in a reload on behalf of readers that have been disposed (nothing registered, no task id held, task list never growing), "
+                "whatever happens afterwards short of a new reader. "
+                "The statement is about the code after three repairs (F-C10-1 a dependent's check consumed the "
+                "derived's Dirty state; F-C10-2 stale initial future reused when a memo source changed before the first poll; F-C10-3 = F-C04-5 Suspense "
+                "registrations and task ids outlived their readers); the pre-repair code is "
                 "kept as an executable chain with kernel-checked regression witnesses that replay on the unrepaired code. Tied to reactive_graph by "
                 "differential correspondence (exhaustive small op sequences + random).",
         "design_ref": "DESIGN.md §7 C10",
